@@ -300,6 +300,8 @@ def gen_meh_obj(r, k, names, groups, all_names, locals_):
             txt.append(f'    .section .text.{nm},"ax",@progbits\n')
             if not local:
                 txt.append(f"    .globl {nm}\n")
+            # padding in front of the function: its symbol then has a non-zero st_value inside the section
+            txt.append("    nop\n" * r.choice([0, 0, 3, 8, 17]))
             txt.append(f"    .type {nm}, @function\n{nm}:\n.Lb_{nm}:\n    push %rbx\n")
             for _ in range(r.range(0, 2)):
                 if all_names:
